@@ -44,7 +44,10 @@ def esc(s: str) -> str:
 
 
 def _coord(v) -> str:
-    return repr(float(v))
+    try:
+        return repr(float(v))
+    except Exception:
+        return "!" + repr(v)
 
 
 def _coord6(v) -> str:
@@ -120,6 +123,16 @@ def enc_bond_dict(d: dict) -> list[str]:
 
 # ---- canonical dumps of real results (must print exactly what Codec.lean prints) ----
 
+def _iv(v) -> str:
+    """an integer-valued attribute; anything else (None, a string, ...) is printed so that it never equals model output"""
+    try:
+        if v is None or isinstance(v, (str, bytes, bool)):
+            raise TypeError
+        return str(int(v))
+    except Exception:
+        return "!" + esc(repr(v))
+
+
 def show_atom(d: dict) -> str:
     f = []
     for short, key in ATOM_KEYS:
@@ -131,11 +144,14 @@ def show_atom(d: dict) -> str:
         elif short in ("x", "y", "zc"):
             s = esc(_coord(v))
         elif short == "inv":
-            s = ",".join(str(int(i)) for i in v) if len(v) else "nil"
+            try:
+                s = ",".join(_iv(i) for i in v) if len(v) else "nil"
+            except Exception:
+                s = "!" + esc(repr(v))
         elif short == "explored":
             s = "T" if v else "F"
         else:
-            s = str(int(v))
+            s = _iv(v)
         f.append(f"{short}={s}")
     extra = set(d) - KNOWN_ATOM_KEYS
     if extra:
@@ -146,7 +162,7 @@ def show_atom(d: dict) -> str:
 def show_bond(d: dict) -> str:
     f = []
     if "bond_type" in d:
-        f.append(f"bt={int(d['bond_type'])}")
+        f.append(f"bt={_iv(d['bond_type'])}")
     if TAG in d:
         f.append("extra=" + esc(str(d[TAG])))
     extra = set(d) - KNOWN_BOND_KEYS
